@@ -10,7 +10,7 @@ key exactly when they are equal, so a Hash finds a key iff it contains an equal 
 neither merge distinct values nor keep equal ones apart (NaN and Sensitive excepted).
 
 Model: `Pcore/Model/ValueEq.lean` — `veq` (the `Equals` methods), `key`/`kb` (`px.ToKey` byte for byte), `hashGet`,
-`unique`; types as values for Any Undef String Integer Float Enum Array Variant Tuple Optional Type (`tyEq`, `tyKey`).
+`unique`; Timespan (compared and keyed by whole seconds) and Timestamp values; types as values for Any Undef String Integer Float Enum Array Variant Tuple Optional Type (`tyEq`, `tyKey`).
 The model has no hidden state at all: `Equals`/`ToKey` are functions of the value; that the implementation agrees with
 them before and after forcing its caches is what the correspondence run checks.
 
@@ -32,12 +32,15 @@ Full statement / proved / missing
   that entry's value.
 * `C07_unique_sub`, `C07_unique_cover`, `C07_unique_distinct` — **proved**: the survivors are a sub-sequence of the
   input, every input is equal to a survivor, no two survivors are equal.
+* `C07_uvarint_prefix_code`, `C07_frame_prefix_code`, `C07_frames_injective` — **proved**: the length prefix of a container
+  element is Go's uvarint (modelled bit for bit: 7-bit groups with continuation bit) and is a prefix code for every length;
+  `C07_key_inj` rests on these, not on an assumption.
 * `C07_no_fault` — **proved**: `px.ToKey` of a comparable value does not panic.
 * `C07_key_table_ok`, `C07_prefixes_distinct` — **proved by `decide` over the table regenerated from /repo on every run**
   (`Generated/KeyTable.lean`: the `HkXxx` constants and the leading bytes each `ToKey` writes): they are the bytes the
   model writes, and the eleven kinds have pairwise distinct two-byte heads.  A change of a prefix byte in the code breaks
   this obligation.
-* missing: value kinds and types outside the model (Timespan, Timestamp, SemVer, SemVerRange, URI, objects; String types
+* missing: value kinds and types outside the model (SemVer, SemVerRange, URI, objects; String types
   with a size or value, Struct, Hash, Pattern, Object, Callable … types): no theorem, only the harness predicate where
   generated.  Hidden state: by correspondence only (see above).
 -/
@@ -54,6 +57,29 @@ theorem C07_symm (x y : Val) (hx : Comparable x) (hy : Comparable y) : veq x y =
 
 theorem C07_trans (x y z : Val) (hx : Comparable x) (hy : Comparable y)
     (h1 : veq x y = true) (h2 : veq y z = true) : veq x z = true := veq_trans x y z hx hy h1 h2
+
+/-! ## the length framing: `binary.PutUvarint` is modelled, and proved to be a prefix code (nothing is assumed) -/
+
+/-- `uvarint` (7-bit groups, least significant first, high bit = continuation — `Model.uvarintAux`) is uniquely
+    decodable from the front of any byte string: for ALL lengths, whatever follows -/
+theorem C07_uvarint_prefix_code (n m : Nat) (x y : Bytes) (h : uvarint n ++ x = uvarint m ++ y) : n = m ∧ x = y :=
+  uvarint_decode h
+
+/-- hence a framed element key `<uvarint length><key>` can be split off the front of a container key in one way only -/
+theorem C07_frame_prefix_code (a b x y : Bytes) (h : frame a ++ x = frame b ++ y) : a = b ∧ x = y := frame_decode h
+
+/-- and a concatenation of frames determines the list of framed keys -/
+theorem C07_frames_injective (as bs : List Bytes) (h : flat (as.map frame) = flat (bs.map frame)) : as = bs :=
+  flat_frames_inj as bs h
+
+/-- the encoding at the boundaries of the length field (one, two and three bytes) is Go's -/
+example : uvarint 0 = [0] ∧ uvarint 127 = [0x7f] ∧ uvarint 128 = [0x80, 0x01] ∧ uvarint 255 = [0xff, 0x01] ∧
+    uvarint 256 = [0x80, 0x02] ∧ uvarint 300 = [0xac, 0x02] ∧ uvarint 16383 = [0xff, 0x7f] ∧
+    uvarint 16384 = [0x80, 0x80, 0x01] := by decide
+-- 64 booleans in a nested array (256 bytes of frames) do not collide with the regrouped `[[], true × 64]`
+set_option maxRecDepth 20000 in
+example : kb (.array [.array (List.replicate 64 (.bool true))]) ≠
+    kb (.array (.array [] :: List.replicate 64 (.bool true))) := by decide
 
 /-! ## keys -/
 
@@ -194,6 +220,8 @@ def modelHeads : List (String × List Nat) := [
   ("floatValue", ((kb (.float 0)).take 2).map (·.toNat)),
   ("Regexp", (kb (.regexp [])).map (·.toNat)),
   ("TupleType", ((tyKey (.tup [] none)).take 2).map (·.toNat)),
+  ("Timespan", ((kb (.timespan 0)).take 2).map (·.toNat)),
+  ("Timestamp", ((kb (.timestamp 0 0)).take 2).map (·.toNat)),
   ("UndefValue", (kb .undef).map (·.toNat)),
   ("DefaultValue", (kb .dflt).map (·.toNat)),
   ("hkTrue", (kb (.bool true)).map (·.toNat)),
@@ -203,8 +231,8 @@ def modelHeads : List (String × List Nat) := [
 
 theorem C07_key_table_ok : Pcore.Generated.keyHeads = modelHeads := by decide
 
-/-- eleven kinds, eleven different two-byte heads (Array = HashEntry, Tuple = every other type, true/false share one) -/
-theorem C07_prefixes_distinct : ((Pcore.Generated.keyHeads.map (·.2.take 2)).eraseDups).length = 11 := by decide
+/-- thirteen kinds, thirteen different two-byte heads (Array = HashEntry, Tuple = every other type, true/false share one) -/
+theorem C07_prefixes_distinct : ((Pcore.Generated.keyHeads.map (·.2.take 2)).eraseDups).length = 13 := by decide
 
 /-! ## non-vacuity: the hypotheses are met by non-trivial cases -/
 
@@ -227,6 +255,12 @@ example : key sampleX = key sampleY :=
     (by decide)
 example : key sampleX ≠ key sampleZ := fun h =>
   absurd (C07_key_inj _ _ (by decide) (by decide) (TopSafe_of_not_str rfl rfl) h) (by decide)
+/-- a Timespan is compared and keyed by its whole seconds (1s = 1.5s, both ways), a Timestamp by seconds and nanoseconds -/
+example : key (.array [.timespan 1000000000, .timestamp 1 0]) = key (.array [.timespan 1500000000, .timestamp 1 0]) :=
+  (C07_key_iff _ _ (by decide) (by decide) (TopSafe_of_not_str rfl rfl) (TypeKeysAgree_of_no_types (Or.inl (by decide)))).mpr
+    (by decide)
+example : veq (.timestamp 1 0) (.timestamp 1 500000000) = false ∧ veq (.timespan (-1500000000)) (.timespan (-1000000000)) = true := by
+  decide
 /-- transitivity through a cross-kind step: entry = array = entry -/
 example : veq (.entry (.int 1) (.int 2)) (.entry (.int 1) (.int 2)) = true :=
   C07_trans (.entry (.int 1) (.int 2)) (.array [.int 1, .int 2]) _ (by decide) (by decide) (by decide) (by decide)
